@@ -489,6 +489,23 @@ pub fn fault_variants(base: &RunSpec, yields: &[(u32, u8, u32)], cap_per_op: u32
         if i >= base.ops.len() {
             continue;
         }
+        if *kind == 8 {
+            // closure visits of a nested macro: (outer visit << 8 | nested visits)
+            let (ok, cnt) = ((*count >> 8) as usize, (*count & 0xFF).min(cap_per_op));
+            for j in 0..cnt {
+                let mut s = base.clone();
+                if let Op::Query { plan, .. } = &mut s.ops[i] {
+                    for p in plan.iter_mut() {
+                        p.panic = false;
+                    }
+                    if let Some(VisitAct { inner: Inner::OtherQuery { pk, .. }, .. }) = plan.get_mut(ok) {
+                        *pk = j + 1;
+                        out.push(s);
+                    }
+                }
+            }
+            continue;
+        }
         let n = (*count).min(cap_per_op);
         for j in 0..n {
             // spread the sampled points over the whole range when it is larger than the cap
